@@ -69,6 +69,7 @@ type cellSpec struct {
 	CancelAfter int        `json:"cancel_after_openings"`
 	Deadline    bool       `json:"cancel_is_deadline,omitempty"`
 	Calls       int        `json:"concurrent_calls,omitempty"`
+	Proxy       *proxySpec `json:"proxy_request,omitempty"`
 }
 
 func (s *cellSpec) fill() {
@@ -183,6 +184,12 @@ type cellRun struct {
 
 	done    int // number of calls that returned
 	results []callResult
+
+	proxyBody    []byte // Proxy cells: the request body every node has to receive
+	proxySha     string
+	bodyBad      string // first healthy node that received something else
+	bodyBadCount int
+	bodyOKCount  int
 
 	// driver observations
 	stallAt    string // what the call was expected to return on
@@ -307,6 +314,19 @@ func newCellRun(kc *kit.Case, spec *cellSpec) (*cellRun, error) {
 	c := &cellRun{kc: kc, spec: spec, meth: methodByName(spec.Method), nP: len(spec.Prim), notify: make(chan struct{}, 1), cctx: newCallerCtx()}
 	all := append(append([]nodeSpec(nil), spec.Prim...), spec.Fall...)
 	c.enterCount = make([]int, len(all))
+	if c.meth.Name == "Proxy" {
+		if spec.Proxy == nil { // drawn from its own PRNG stream of the case: reproducible
+			var cls []class
+			for _, ns := range all {
+				cls = append(cls, ns.Class)
+			}
+			spec.Proxy = proxySpecFor(kc.R.Rand(kc.Idx, 7), cls)
+		}
+		if spec.Proxy.HTTPMethod == "POST" {
+			c.proxyBody = proxyBody(int64(kc.Idx)+1, spec.Proxy.BodySize)
+		}
+		c.proxySha = shaHex(c.proxyBody)
+	}
 	for i, ns := range all {
 		uid := uint64(kc.Idx)*16 + uint64(i) + 1
 		n := &node{Mock: bm, run: c, idx: i, bit: 1 << uint(i), fallback: i >= c.nP, spec: ns, uid: uid, gate: make(chan struct{})}
@@ -335,7 +355,15 @@ func (c *cellRun) multi() eth2wrap.Client {
 }
 
 func (c *cellRun) call(m eth2wrap.Client) {
-	res, err := c.meth.call(c.cctx, m)
+	var (
+		res any
+		err error
+	)
+	if c.meth.callCell != nil {
+		res, err = c.meth.callCell(c.cctx, m, c)
+	} else {
+		res, err = c.meth.call(c.cctx, m)
+	}
 	c.mu.Lock()
 	c.results = append(c.results, callResult{res: res, err: err, open: c.open, answered: c.answered, entered: c.entered, cancelled: c.cancelled, fallbackEnteredBeforeReturn: c.fbEntered})
 	c.done++
@@ -466,7 +494,15 @@ func (c *cellRun) tier(lo, hi int, order []int, isPrim bool) bool {
 // closed. The call has to return now. If it does not within the settle wait the harness releases
 // the remaining gates (then ends the caller context) and records what made it return.
 func (c *cellRun) mustReturn(why, tname string) {
-	if c.awaitSettle(c.isDone) {
+	if c.awaitSettle(func() bool { return c.isDone() || c.bodyBad != "" }) {
+		if !c.doneNow() {
+			// Proxy: the node whose success had to be returned was handed an altered request and refused it
+			c.mu.Lock()
+			c.stallAt = why
+			c.mu.Unlock()
+			c.stallKind = "request-altered"
+		}
+
 		return
 	}
 	c.mu.Lock()
@@ -592,7 +628,7 @@ type verdicts struct {
 
 func (v *verdicts) violation(rule, what string) {
 	c := v.c
-	sig := fmt.Sprintf("eth2wrap.multi/%s/%s", c.meth.Style, rule)
+	sig := fmt.Sprintf("eth2wrap.multi/%s/%s", c.meth.sigStyle(), rule)
 	violSeen.Add(1)
 	v.fired = append(v.fired, sig)
 	c.mu.Lock()
@@ -632,19 +668,47 @@ func describe(v any) any {
 // matchNodes returns the nodes whose scripted answer equals res exactly.
 func (c *cellRun) matchNodes(res any) []*node {
 	var out []*node
-	if c.meth.expect == nil {
+	if c.meth.expect == nil && c.meth.expectCell == nil {
 		return nil
 	}
 	for _, n := range c.nodes {
 		if n.spec.Class != clOK && n.spec.Class != clNOK {
 			continue
 		}
-		if reflect.DeepEqual(res, c.meth.expect(n.uid, n.spec.Class == clNOK)) {
+		var want any
+		if c.meth.expectCell != nil {
+			want = c.meth.expectCell(c, n)
+		} else {
+			want = c.meth.expect(n.uid, n.spec.Class == clNOK)
+		}
+		if reflect.DeepEqual(res, want) {
 			out = append(out, n)
 		}
 	}
 
 	return out
+}
+
+// bodyNote explains a Proxy failure caused by an altered request at a healthy node.
+func (c *cellRun) bodyNote() string {
+	c.mu.Lock()
+	defer c.mu.Unlock()
+	if c.bodyBad == "" {
+		return ""
+	}
+
+	return " — " + c.bodyBad + " and answered 400"
+}
+
+func sizeClass(n int) string {
+	switch {
+	case n == 0:
+		return "0B"
+	case n < 1024:
+		return "small"
+	default:
+		return "64KiB+"
+	}
 }
 
 func (c *cellRun) tierOf(n *node) []*node {
@@ -726,7 +790,7 @@ func (c *cellRun) judgeResult(v *verdicts, r callResult, primCat string, burst b
 	}
 	for _, p := range prims {
 		if p.spec.Class == clOK && r.open&p.bit != 0 {
-			v.violation("failed-although-a-primary-answered-successfully", fmt.Sprintf("%s returned an error although primary %s answers successfully and its gate was open", c.meth.Name, p.label()))
+			v.violation("failed-although-a-primary-answered-successfully", fmt.Sprintf("%s returned an error although primary %s answers successfully and its gate was open%s", c.meth.Name, p.label(), c.bodyNote()))
 			return
 		}
 	}
@@ -758,7 +822,7 @@ func (c *cellRun) judgeResult(v *verdicts, r callResult, primCat string, burst b
 	if fbEntered {
 		for _, f := range falls {
 			if f.spec.Class == clOK && r.open&f.bit != 0 {
-				v.violation("failed-although-a-fallback-answered-successfully", fmt.Sprintf("%s returned an error although consulted fallback %s answers successfully and its gate was open", c.meth.Name, f.label()))
+				v.violation("failed-although-a-fallback-answered-successfully", fmt.Sprintf("%s returned an error although consulted fallback %s answers successfully and its gate was open%s", c.meth.Name, f.label(), c.bodyNote()))
 				return
 			}
 		}
@@ -850,6 +914,25 @@ func (c *cellRun) evaluate(cleanOK bool) {
 	R.Seen("methods", c.meth.Name)
 	for _, ns := range append(append([]nodeSpec(nil), spec.Prim...), spec.Fall...) {
 		R.Seen("outcome_classes", ns.Class.String())
+	}
+
+	c.mu.Lock()
+	bodyBad, bodyBadCount, bodyOKCount := c.bodyBad, c.bodyBadCount, c.bodyOKCount
+	c.mu.Unlock()
+	if spec.Proxy != nil {
+		R.Count("proxy/cells", 1)
+		R.Count("proxy/healthy_nodes_that_received_the_intact_request", int64(bodyOKCount))
+		R.Seen("proxy_requests", fmt.Sprintf("%s/%s", spec.Proxy.HTTPMethod, sizeClass(spec.Proxy.BodySize)))
+		if len(spec.Prim) >= 2 && spec.Proxy.BodySize > 0 {
+			R.Count("proxy/cells_with_body_and_two_or_more_primaries", 1)
+		}
+	}
+	if c.stallKind == "request-altered" {
+		v.violation("healthy-node-received-altered-request", fmt.Sprintf("%s: %s while the other gates were closed, but it had been handed an altered request and answered 400: %s (%s %d-byte body; a node of the same stage had read its copy before)", c.meth.Name, c.stallAt, bodyBad, spec.Proxy.HTTPMethod, spec.Proxy.BodySize))
+		return
+	}
+	if bodyBadCount > 0 && r.err == nil {
+		R.Count("observation/proxy-healthy-node-received-altered-request-but-call-succeeded", 1)
 	}
 
 	// (1) does not wait for slower / hung nodes
